@@ -390,13 +390,20 @@ type c08Assigned struct {
 	Times []time.Time // candidate assignment times (one unless the recorded time is legitimately ambiguous)
 }
 
+// c08BandStat says how the reference classified the pods with reported usage (vacuity measurement).
+type c08BandStat struct {
+	Unamb                      bool
+	Counted, Reflected, Either int // estimate counted (c=1) / usage already reflected (c=0) / both admitted
+}
+
 // c08RefBand computes the closed interval [lo, hi] the statement admits for the node's estimate:
 // usage + sum over assigned pods of c_p * max(0, estimate_p - reportedUsage_p), with c_p = 1 when the report carries
 // no usage for p, or p was assigned after the report's update time, or p is inside its estimation window; c_p = 0
 // when p has reported usage, was assigned more than one report interval before the update time and its window (if
 // any) has passed; otherwise both are admitted. Without a usage figure in the report every pod counts in full.
-func c08RefBand(rc c08RefCfg, mv *c08MetricVar, ut time.Time, q c08Query, pods []c08Assigned) (lo, hi c08Vec, unamb bool) {
-	unamb = true
+func c08RefBand(rc c08RefCfg, mv *c08MetricVar, ut time.Time, q c08Query, pods []c08Assigned) (lo, hi c08Vec, st c08BandStat) {
+	unamb := true
+	defer func() { st.Unamb = unamb }()
 	R := mv.interval()
 	reported := func(name string) (c08PodUsage, bool) {
 		if mv.Empty || mv.NoInfo {
@@ -419,10 +426,13 @@ func c08RefBand(rc c08RefCfg, mv *c08MetricVar, ut time.Time, q c08Query, pods [
 		}
 		switch {
 		case allOne:
+			st.Counted++
 			return 1, 1
 		case allZero:
+			st.Reflected++
 			return 0, 0
 		}
+		st.Either++
 		unamb = false
 		return 0, 1
 	}
